@@ -12,7 +12,7 @@ Not decided: coordinates drawn by the plotters, values produced by dfphi_map_fun
 import ast
 
 from .. import astq
-from ..program import rel, AnalysisError
+from ..program import FuncInfo,  rel, AnalysisError
 
 GEO = ["functions.gen.check_on_geo1", "functions.gen.check_on_geo2"]
 CUR = {}
@@ -287,6 +287,8 @@ def check(prog, run):
         bad = sorted({k for k in kinds if k != "ValueError"})
         run.ob("R-raise", fi.qual, "validation raises ValueError", bool(raises) and not bad, f"{len(raises)} raise statements" + (f", other exception types: {bad}" if bad else ""), witness=str(bad), file=f, node=fi.node)
     reindex(prog, run)
+    run.rule("R-validated", "Geometry1/Geometry2 are built from the tables returned by check_on_geo1/2 (validated, normalised, re-indexed), keyword by keyword", 10)
+    validated(prog, run)
     attr_rule(prog, run)
     try:
         from .. import seqsig
@@ -336,6 +338,49 @@ def reindex(prog, run):
                     if isinstance(v, ast.Call) and isinstance(v.func, ast.Attribute) and v.func.attr == "reindex" and "flatten_sns_names" in astq.src(v, 400):
                         ok = True
     run.ob("R-reindex", fi2.qual, "constraint columns re-ordered to the sensor names", ok, f"`{why}`", witness=why[:80], file=f2)
+
+
+def validated(prog, run):
+    """R-validated: the geometry object is built from the tables RETURNED by the validation function (normalised, re-indexed,
+    zero-based), each under the keyword of the same name - not from the caller's raw arguments"""
+    norm = lambda x: x.lower().replace("_", "")
+    for cq in [q for q in prog.classes if q.endswith("geometry.mixin.GeometryMixin")]:
+        ci = prog.classes[cq]
+        for m in ci.methods.values():
+            f = rel(prog.mods[m.mod].path)
+            for c, r in prog.calls_in(m):
+                cname = astq.src(c.func)
+                if not (cname.split(".")[-1] in ("Geometry1", "Geometry2") and c.keywords):
+                    continue
+                for k in c.keywords:
+                    if k.arg is None:
+                        continue
+                    x = astq.expr_at(m, c, k.value)
+                    # strip order-preserving conversions
+                    while isinstance(x, ast.Call) and isinstance(x.func, ast.Attribute) and x.func.attr in ("astype", "copy", "to_numpy"):
+                        x = x.func.value
+                    src_fn, pos = None, None
+                    if isinstance(x, ast.Subscript) and isinstance(x.value, ast.Call) and isinstance(x.slice, ast.Constant) and isinstance(x.slice.value, int):
+                        rr = prog.resolve_call(m, x.value)
+                        if isinstance(rr, FuncInfo) and rr.node.name.startswith("check_on_geo"):
+                            src_fn, pos = rr, x.slice.value
+                    if src_fn is None:
+                        raw = isinstance(x, ast.Name) and x.id in astq.params_of(m.node)[0]
+                        run.ob("R-validated", m.qual, f"{cname.split('.')[-1]}.{k.arg} is a table returned by the validation", False if raw else None,
+                               f"`{k.arg}={astq.src(x, 50)}`" + (" is the caller's raw argument: NaN cells, one-based indices and the caller's row order are kept" if raw else " not traced to the validation result"),
+                               witness=f"{k.arg}<-{astq.src(x, 40)}", file=f, node=c, config=k.arg)
+                        continue
+                    rets = [n for n in ast.walk(src_fn.node) if isinstance(n, ast.Return) and isinstance(n.value, ast.Tuple)]
+                    names = [e.id if isinstance(e, ast.Name) else None for e in rets[-1].value.elts] if rets else []
+                    got = names[pos] if 0 <= pos < len(names) else None
+                    ok = None
+                    if got is not None:
+                        a_, b_ = norm(k.arg), norm(got)
+                        ok = a_ == b_ or a_.startswith(b_) or b_.startswith(a_) or {a_, b_} in ({"senscoord", "ptscoord"},)
+                        if not ok and not any(norm(k2.arg or "") in (b_,) or b_.startswith(norm(k2.arg or "~")) for k2 in c.keywords):
+                            ok = None      # no keyword of that name at all: naming scheme not recognised
+                    run.ob("R-validated", m.qual, f"{cname.split('.')[-1]}.{k.arg} is a table returned by the validation", ok,
+                           f"`{k.arg}` <- element {pos} (`{got}`) of {src_fn.node.name}(...)", witness=f"{k.arg}<-{got}", file=f, node=c, config=k.arg)
 
 
 DF_ATTRS = {"empty", "values", "index", "sub", "to_numpy", "reindex", "fillna", "columns", "astype", "replace", "shape", "loc", "iloc"}
